@@ -452,3 +452,179 @@ Proof.
     repeat (case_if; try discriminate).
   - exfalso. exact (f154_check_len_no_panic bs E).
 Qed.
+
+(* ---------- C06: the octets emit produces ---------- *)
+
+Definition f154_opt_z (x : option Z) : Z := match x with Some v => v | None => 0 end.
+Definition f154_opt_mode (a : option f154_addr) : Z :=
+  match a with Some a => f154_addr_mode a | None => 0 end.
+Definition f154_addr_bytes (a : option f154_addr) : list Z :=
+  match a with Some (F154Short v) | Some (F154Ext v) => rev v | _ => [] end.
+
+(* the frame control word of a well-formed representation (security bit 3, reserved bit 7,
+   sequence number suppression 8 and IE present 9 are zero) *)
+Definition f154_fcword (r : f154_repr) : Z :=
+  f154_r_frame_type r + 16 * f154_b2z (f154_r_pending r) + 32 * f154_b2z (f154_r_ack_request r) +
+  64 * f154_b2z (f154_r_compression r) + 1024 * f154_opt_mode (f154_r_dst_addr r) +
+  4096 * f154_r_version r + 16384 * f154_opt_mode (f154_r_src_addr r).
+
+(* [edp], [esp]: the two octets of the destination / source PAN id *)
+Definition f154_bytes_with (edp esp : list Z) (r : f154_repr) : list Z :=
+  f154_le_enc2 (f154_fcword r) ++ [f154_opt_z (f154_r_seq r)] ++ edp ++
+  f154_addr_bytes (f154_r_dst_addr r) ++
+  (if f154_r_compression r then [] else esp) ++
+  f154_addr_bytes (f154_r_src_addr r).
+
+Definition f154_bytes (r : f154_repr) : list Z :=
+  f154_bytes_with (f154_le_enc2 (f154_opt_z (f154_r_dst_pan r)))
+                  (f154_le_enc2 (f154_opt_z (f154_r_src_pan r))) r.
+
+(* Repr::emit with the PAN id octets as parameters: the case analysis below evaluates emit on
+   buffers whose cells are variables, and [v mod 256] of a variable does not evaluate *)
+Definition f154_emit_with (edp esp : list Z) (r : f154_repr) (b : list Z) : outcome (list Z) :=
+  do b <- f154_clear_frame_control b;
+  do b <- f154_set_frame_type b (f154_r_frame_type r);
+  do b <- f154_set_security_enabled b (f154_r_security r);
+  do b <- f154_set_frame_pending b (f154_r_pending r);
+  do b <- f154_set_ack_request b (f154_r_ack_request r);
+  do b <- f154_set_pan_id_compression b (f154_r_compression r);
+  do b <- f154_set_frame_version b (f154_r_version r);
+  do b <- f154_opt_set b (f154_r_seq r) f154_set_sequence_number;
+  do b <- f154_opt_set b (f154_r_dst_pan r) (fun b _ =>
+            do b <- f154_set_dst_addressing_mode b f154_AM_EXTENDED;
+            wb_set_slice b w154_f_ADDRESSING (w154_f_ADDRESSING + 2) edp);
+  do b <- f154_opt_set b (f154_r_dst_addr r) f154_set_dst_addr;
+  do b <- (if negb (f154_r_compression r)
+           then f154_opt_set b (f154_r_src_pan r) (fun b _ =>
+                  do offset <- f154_src_offset b;
+                  wb_set_slice b (w154_f_ADDRESSING + offset) (w154_f_ADDRESSING + offset + 2) esp)
+           else Ok b);
+  f154_opt_set b (f154_r_src_addr r) f154_set_src_addr.
+
+Lemma f154_emit_with_eq r b :
+  f154_emit r b = f154_emit_with (f154_le_enc2 (f154_opt_z (f154_r_dst_pan r)))
+                                 (f154_le_enc2 (f154_opt_z (f154_r_src_pan r))) r b.
+Proof.
+  unfold f154_emit, f154_emit_with. destruct (f154_r_dst_pan r), (f154_r_src_pan r); reflexivity.
+Qed.
+
+(* the shape of a well-formed representation *)
+Definition f154_mk (ft : Z) (fp ar : bool) (s : Z) (c : bool) (ver dp : Z) (da : f154_addr) (sp : Z)
+    (sa : f154_addr) : f154_repr :=
+  mkF154 ft false fp ar (Some s) c ver (Some dp) (Some da) (if c then None else Some sp) (Some sa).
+
+Lemma f154_wf_inv r : f154_wf r = true ->
+  exists ft fp ar s c ver dp da sp sa,
+    r = f154_mk ft fp ar s c ver dp da sp sa /\
+    f154_has_addressing ft ver = true /\ 0 <= s < 256 /\ 0 <= ver <= 2 /\ 0 <= dp < 65536 /\
+    0 <= sp < 65536 /\ f154_addr_ok da = true /\ f154_addr_ok sa = true /\
+    f154_layout_ok ver (f154_addr_mode da) (f154_addr_mode sa) c = true.
+Proof.
+  destruct r as [ft se fp ar sn c ver dp da sp sa]. unfold f154_wf.
+  cbn [f154_r_frame_type f154_r_security f154_r_pending f154_r_ack_request f154_r_seq
+       f154_r_compression f154_r_version f154_r_dst_pan f154_r_dst_addr f154_r_src_pan f154_r_src_addr].
+  intros H. bsplit.
+  destruct sn as [s|]; [|discriminate]. destruct dp as [dp|]; [|discriminate].
+  destruct da as [da|]; [|discriminate]. destruct sa as [sa|]; [|discriminate].
+  destruct se; [discriminate|]. bsplit.
+  destruct sp as [sp|].
+  - bsplit. destruct c; [discriminate|].
+    exists ft, fp, ar, s, false, ver, dp, da, sp, sa. unfold f154_mk. repeat split; try assumption; lia.
+  - destruct c; [|discriminate].
+    exists ft, fp, ar, s, true, ver, dp, da, 0, sa. unfold f154_mk. repeat split; try assumption; lia.
+Qed.
+
+(* case analysis over the finitely many shapes: frame type, flags, version, address kinds *)
+Ltac f154_addr_cells a H :=
+  let v := fresh "v" in destruct a as [|v|v]; cbn [f154_addr_ok f154_addr_mode] in *;
+  [ | unfold is_arr in H; apply andb_prop in H; destruct H as [H _]; apply Z.eqb_eq in H;
+      apply (blen_length _ 2) in H; cells H
+    | unfold is_arr in H; apply andb_prop in H; destruct H as [H _]; apply Z.eqb_eq in H;
+      apply (blen_length _ 8) in H; cells H ].
+
+Ltac f154_ft_cases Ha :=
+  unfold f154_has_addressing in Ha;
+  repeat match type of Ha with
+  | _ || _ = true => apply orb_prop in Ha; destruct Ha as [Ha|Ha]
+  | _ && _ = true =>
+      let Hv := fresh "Hv" in
+      apply andb_prop in Ha; destruct Ha as [Ha Hv]; vm_compute in Hv; try discriminate Hv
+  end;
+  apply Z.eqb_eq in Ha; subst.
+
+Lemma f154_emit_with_spec ft fp ar s c ver dp da sp sa p0 p1 q0 q1 b :
+  f154_has_addressing ft ver = true -> 0 <= ver <= 2 ->
+  f154_addr_ok da = true -> f154_addr_ok sa = true ->
+  f154_layout_ok ver (f154_addr_mode da) (f154_addr_mode sa) c = true ->
+  blen b = f154_buffer_len (f154_mk ft fp ar s c ver dp da sp sa) ->
+  f154_emit_with [p0; p1] [q0; q1] (f154_mk ft fp ar s c ver dp da sp sa) b =
+  Ok (f154_bytes_with [p0; p1] [q0; q1] (f154_mk ft fp ar s c ver dp da sp sa)).
+Proof.
+  intros Ha Hv Hda Hsa Hlay Hb.
+  assert (Hver : ver = 0 \/ ver = 1 \/ ver = 2) by lia.
+  destruct Hver as [-> | [-> | ->]]; destruct c;
+    f154_addr_cells da Hda; f154_addr_cells sa Hsa;
+    try (vm_compute in Hlay; discriminate Hlay); clear Hlay;
+    (match type of Hb with blen b = ?n =>
+       let v := eval vm_compute in (Z.to_nat n) in
+       apply (blen_length _ v) in Hb; cells Hb end);
+    f154_ft_cases Ha; destruct fp, ar; vm_compute; reflexivity.
+Qed.
+
+Lemma f154_parse_bytes_with ft fp ar s c ver dp da sp sa p0 p1 q0 q1 :
+  f154_has_addressing ft ver = true -> 0 <= ver <= 2 ->
+  f154_addr_ok da = true -> f154_addr_ok sa = true ->
+  f154_layout_ok ver (f154_addr_mode da) (f154_addr_mode sa) c = true ->
+  f154_parse (f154_bytes_with [p0; p1] [q0; q1] (f154_mk ft fp ar s c ver dp da sp sa)) =
+  Ok (f154_mk ft fp ar s c ver (f154_le_dec [p0; p1]) da (f154_le_dec [q0; q1]) sa).
+Proof.
+  intros Ha Hv Hda Hsa Hlay.
+  assert (Hver : ver = 0 \/ ver = 1 \/ ver = 2) by lia.
+  destruct Hver as [-> | [-> | ->]]; destruct c;
+    f154_addr_cells da Hda; f154_addr_cells sa Hsa;
+    try (vm_compute in Hlay; discriminate Hlay); clear Hlay;
+    f154_ft_cases Ha; destruct fp, ar; vm_compute; reflexivity.
+Qed.
+
+Lemma f154_le_dec_enc2 v : 0 <= v < 65536 -> f154_le_dec (f154_le_enc2 v) = v.
+Proof. intros H. unfold f154_le_dec, f154_le_enc2. cbn [fold_right]. lia. Qed.
+
+Lemma f154_emit_spec r b : f154_wf r = true -> blen b = f154_buffer_len r ->
+  f154_emit r b = Ok (f154_bytes r).
+Proof.
+  intros Hwf Hb.
+  destruct (f154_wf_inv r Hwf) as (ft & fp & ar & s & c & ver & dp & da & sp & sa & -> & Ha & Hs & Hv & Hdp & Hsp & Hda & Hsa & Hlay).
+  rewrite f154_emit_with_eq. unfold f154_bytes, f154_le_enc2. apply f154_emit_with_spec; assumption.
+Qed.
+
+Lemma f154_bytes_len r : f154_wf r = true -> blen (f154_bytes r) = f154_buffer_len r.
+Proof.
+  intros Hwf.
+  destruct (f154_wf_inv r Hwf) as (ft & fp & ar & s & c & ver & dp & da & sp & sa & -> & Ha & Hs & Hv & Hdp & Hsp & Hda & Hsa & Hlay).
+  destruct c; f154_addr_cells da Hda; f154_addr_cells sa Hsa; reflexivity.
+Qed.
+
+Lemma f154_emit_no_panic r b : f154_wf r = true -> blen b = f154_buffer_len r -> f154_emit r b <> Panic.
+Proof. intros; rewrite f154_emit_spec by assumption; discriminate. Qed.
+
+Lemma f154_emit_ignores_old_bytes r b1 b2 : f154_wf r = true ->
+  blen b1 = f154_buffer_len r -> blen b2 = f154_buffer_len r -> f154_emit r b1 = f154_emit r b2.
+Proof. intros; rewrite !f154_emit_spec by assumption; reflexivity. Qed.
+
+Lemma f154_parse_bytes r : f154_wf r = true -> f154_parse (f154_bytes r) = Ok r.
+Proof.
+  intros Hwf.
+  destruct (f154_wf_inv r Hwf) as (ft & fp & ar & s & c & ver & dp & da & sp & sa & -> & Ha & Hs & Hv & Hdp & Hsp & Hda & Hsa & Hlay).
+  unfold f154_bytes, f154_le_enc2. rewrite f154_parse_bytes_with by assumption. f_equal.
+  unfold f154_mk. cbn [f154_r_dst_pan f154_r_src_pan f154_opt_z].
+  fold (f154_le_enc2 dp). rewrite (f154_le_dec_enc2 dp Hdp).
+  destruct c; [reflexivity|]. cbn [f154_opt_z]. fold (f154_le_enc2 sp). rewrite (f154_le_dec_enc2 sp Hsp).
+  reflexivity.
+Qed.
+
+Lemma f154_roundtrip r b : f154_wf r = true -> blen b = f154_buffer_len r ->
+  exists bs, f154_emit r b = Ok bs /\ blen bs = f154_buffer_len r /\ f154_parse bs = Ok r.
+Proof.
+  intros Hwf Hb. exists (f154_bytes r). split; [apply f154_emit_spec; assumption|].
+  split; [apply f154_bytes_len; assumption | apply f154_parse_bytes; assumption].
+Qed.
